@@ -53,15 +53,19 @@ func (e *env[E, P, D, T]) sizes() []sizeSpec {
 			for lg := 17; lg <= 20; lg++ {
 				add(lg, true)
 			}
-			if e.k <= 24 {
-				add(e.k, true) // the largest domain of the field (bw6-633: 2^20, bls24-315: 2^22, koalabear: 2^24)
+			if e.k <= 24 && e.A.Modulus().BitLen() <= 64 {
+				add(e.k, true) // the largest domain of the field (koalabear: 2^24; bw6-633: 2^20 is in the list above)
 			}
 		} else {
 			add(13, true)
 			add(14, true)
 		}
 	case "light":
-		for lg := 0; lg <= e.c.Pick(13, 15); lg++ {
+		top := e.c.Pick(11, 13)
+		if e.A.Modulus().BitLen() <= 64 {
+			top = e.c.Pick(13, 16) // the fields with their own portable kernels
+		}
+		for lg := 0; lg <= top; lg++ {
 			add(lg, true)
 		}
 	case "sched":
